@@ -149,6 +149,8 @@ Proof.
   - cbn [step] in Hst. inversion Hst. subst. apply same_refl.
   - cbn [step] in Hst. inversion Hst. subst. apply same_refl.
   - cbn [step] in Hst. inversion Hst. subst. apply same_refl.
+  - cbn [step] in Hst. inversion Hst. subst. apply same_refl.
+  - cbn [step] in Hst. inversion Hst. subst. apply same_refl.
 Qed.
 
 (* every history refines the position-map machine, call by call *)
